@@ -204,10 +204,10 @@ def run(rep, tier):
             # get_label(s) / get_id(s) on the catalogue and on slices of it: positions vs the model (absent labels are refused)
             ids_all = [int(v) for v in (cat.labels if which == 'SourceCatalog' else cat.ids)]
             getter = (lambda c_, ls: c_.get_labels(ls)) if which == 'SourceCatalog' else (lambda c_, ls: c_.get_ids(ls))
-            for _ in range(6):
+            for t_ in range(8):
                 keep = sorted(r.sample(range(n), r.randint(2, n))) if r.random() < 0.7 else list(range(n))
-                if r.random() < 0.3:
-                    r.shuffle(keep)                             # a list index may also reorder the sources
+                if t_ % 2 == 0:
+                    r.shuffle(keep)                             # a list index may also reorder the sources (ids no longer ascending)
                 sub = cat[keep] if keep != list(range(n)) else cat
                 held = [ids_all[k_] for k_ in keep]
                 req = [r.choice(ids_all) for _ in range(r.randint(1, 3))] if r.random() < 0.6 else r.sample(held, min(len(held), r.randint(1, 3)))
